@@ -27,6 +27,44 @@ EXPLAIN = ("R-LOCK region membership; R-ORDER publish-then-signal and pong-befor
            "interleavings (deque/Event atomicity is trusted).")
 RC = 'lib.recoco.recoco'
 
+def pinger_rules (ctx, repo, clause):
+  """rules on the wake-up primitive (lib.util.make_pinger) shared by C06 (the select hub is woken through it) and C07"""
+  # the wake-up primitive itself: every ping() puts a byte into the pipe/socket; the only thing it may consult first is whether
+  # the module it writes with still exists (interpreter shutdown) - never state of the pinger, which the reader side changes concurrently
+  um = repo.mod('lib.util'); mp = um.funcs.get('make_pinger')
+  n_ping = 0
+  if mp is not None:
+    ctx.analysed(mp)
+    for cd in [x for x in ast.walk(mp.node) if isinstance(x, ast.ClassDef)]:
+      for pm in [x for x in cd.body if isinstance(x, ast.FunctionDef) and x.name == 'ping']:
+        pg = q.cfg_of(pm)
+        wr = pg.nodes_with_call(lambda c: (call_name(c) == 'write' and norm(c.func.value) == 'os') or (call_name(c) in ('send', 'sendall') and norm(c.func.value).startswith('self.')))
+        n_ping += len(wr)
+        if not wr:
+          ctx.bad('R-EFFECT', um.short + ':make_pinger.' + cd.name + '.ping', "ping() writes a wake-up byte", "no write in ping()", (um, pm), clause); continue
+        for w_ in wr:
+          stateful = [f_ for f_ in q.fact_strs(pg, w_) if 'self.' in f_]
+          ctx.ob('R-DOM', um.short + ':make_pinger.' + cd.name + '.ping', "ping() writes a wake-up byte on every call, whatever the pinger's state", not stateful,
+                 "write guarded only by %s" % (q.fact_strs(pg, w_) or 'nothing') if not stateful else
+                 "the write is skipped depending on `%s`, state that the reading side resets concurrently: a ping between the reader's reset and its read is swallowed while the flag says a byte is pending - "
+                 "the scheduler is not woken and the hand-off waits for the polling timeout" % stateful[0], (um, w_.ast), clause)
+  ctx.floor('pinger write sites', n_ping, 2)
+  # clearing the wake-up channel: the read end is a blocking descriptor, and the task that clears it runs on the scheduler
+  # thread - a second read in the same call blocks the whole scheduler whenever the first one happened to drain the pipe
+  if mp is not None:
+    for cd in [x for x in ast.walk(mp.node) if isinstance(x, ast.ClassDef)]:
+      for pm in [x for x in cd.body if isinstance(x, ast.FunctionDef) and x.name in ('pong', 'pong_all', 'pongAll')]:
+        pg = q.cfg_of(pm)
+        rd = pg.nodes_with_call(lambda c: (call_name(c) == 'read' and norm(c.func.value) == 'os') or (call_name(c) in ('recv', 'recv_into') and norm(c.func.value).startswith('self.')))
+        looped = [n for n in rd if any(n in pg.loop_body_nodes(h_) or n is h_ or any(n.ast is x_ or (n.ast is not None and any(y_ is x_ for y_ in ast.walk(n.ast))) for x_ in ast.walk(st_.test if isinstance(st_, ast.While) else st_.iter)) for st_, h_, a_ in pg.loop_nodes)]
+        nb = any(call_name(c) in ('setblocking', 'set_blocking') for c in calls_in(mp.node) if isinstance(c.func, ast.Attribute) and ('_r' in norm(c) or 'pair[0]' in norm(c) or 'os' == norm(c.func.value)))
+        for n in rd:
+          bad_ = n in looped and not nb
+          ctx.ob('R-EFFECT', um.short + ':make_pinger.' + cd.name + '.' + pm.name, "clearing the wake-up channel reads once (`%s`)" % n.text(40), not bad_, "single read" if not bad_ else
+                 "the read sits in a loop on a blocking descriptor: when the pending pings are an exact multiple of the read size the extra read blocks - on the scheduler thread, before the queued functions are run; "
+                 "nothing handed over runs until some later ping arrives", (um, n.ast), clause)
+  return um, mp
+
 def run (ctx):
   ctx.explanation = EXPLAIN
   ctx.assumptions = ["deque.append/popleft, Queue and threading.Event are atomic (CPython)", "lock regions are the lexical `with self._lock:` blocks"]
@@ -92,42 +130,14 @@ def run (ctx):
     c = [c for c in q.node_calls(app[0])][0]
     ctx.ob('R-AGREE', tcl, "functions are queued at the tail (submission order)", call_name(c) == 'append', norm(c)[:50] if call_name(c) == 'append' else "`%s` does not append at the tail: functions of one thread run out of submission order" % norm(c)[:50], (mod, c), 'D2')
     ctx.ob('R-EFFECT', tcl, "every call-later wakes the task", g.postdominates(png, app[0]), "ping on every path after the append", tcl, 'D2')
-  # the wake-up primitive itself: every ping() puts a byte into the pipe/socket; the only thing it may consult first is whether
-  # the module it writes with still exists (interpreter shutdown) - never state of the pinger, which the reader side changes concurrently
-  um = repo.mod('lib.util'); mp = um.funcs.get('make_pinger')
-  n_ping = 0
-  if mp is not None:
-    ctx.analysed(mp)
-    for cd in [x for x in ast.walk(mp.node) if isinstance(x, ast.ClassDef)]:
-      for pm in [x for x in cd.body if isinstance(x, ast.FunctionDef) and x.name == 'ping']:
-        pg = q.cfg_of(pm)
-        wr = pg.nodes_with_call(lambda c: (call_name(c) == 'write' and norm(c.func.value) == 'os') or (call_name(c) in ('send', 'sendall') and norm(c.func.value).startswith('self.')))
-        n_ping += len(wr)
-        if not wr:
-          ctx.bad('R-EFFECT', um.short + ':make_pinger.' + cd.name + '.ping', "ping() writes a wake-up byte", "no write in ping()", (um, pm), 'D2'); continue
-        for w_ in wr:
-          stateful = [f_ for f_ in q.fact_strs(pg, w_) if 'self.' in f_]
-          ctx.ob('R-DOM', um.short + ':make_pinger.' + cd.name + '.ping', "ping() writes a wake-up byte on every call, whatever the pinger's state", not stateful,
-                 "write guarded only by %s" % (q.fact_strs(pg, w_) or 'nothing') if not stateful else
-                 "the write is skipped depending on `%s`, state that the reading side resets concurrently: a ping between the reader's reset and its read is swallowed while the flag says a byte is pending - "
-                 "the scheduler is not woken and the hand-off waits for the polling timeout" % stateful[0], (um, w_.ast), 'D2')
-  ctx.floor('pinger write sites', n_ping, 2)
-  # clearing the wake-up channel: the read end is a blocking descriptor, and the task that clears it runs on the scheduler
-  # thread - a second read in the same call blocks the whole scheduler whenever the first one happened to drain the pipe
-  if mp is not None:
-    for cd in [x for x in ast.walk(mp.node) if isinstance(x, ast.ClassDef)]:
-      for pm in [x for x in cd.body if isinstance(x, ast.FunctionDef) and x.name in ('pong', 'pong_all', 'pongAll')]:
-        pg = q.cfg_of(pm)
-        rd = pg.nodes_with_call(lambda c: (call_name(c) == 'read' and norm(c.func.value) == 'os') or (call_name(c) in ('recv', 'recv_into') and norm(c.func.value).startswith('self.')))
-        looped = [n for n in rd if any(n in pg.loop_body_nodes(h_) or n is h_ or any(n.ast is x_ or (n.ast is not None and any(y_ is x_ for y_ in ast.walk(n.ast))) for x_ in ast.walk(st_.test if isinstance(st_, ast.While) else st_.iter)) for st_, h_, a_ in pg.loop_nodes)]
-        nb = any(call_name(c) in ('setblocking', 'set_blocking') for c in calls_in(mp.node) if isinstance(c.func, ast.Attribute) and ('_r' in norm(c) or 'pair[0]' in norm(c) or 'os' == norm(c.func.value)))
-        for n in rd:
-          bad_ = n in looped and not nb
-          ctx.ob('R-EFFECT', um.short + ':make_pinger.' + cd.name + '.' + pm.name, "clearing the wake-up channel reads once (`%s`)" % n.text(40), not bad_, "single read" if not bad_ else
-                 "the read sits in a loop on a blocking descriptor: when the pending pings are an exact multiple of the read size the extra read blocks - on the scheduler thread, before the queued functions are run; "
-                 "nothing handed over runs until some later ping arrives", (um, n.ast), 'D2')
+  um, mp = pinger_rules(ctx, repo, 'D2')
+  from . import c06 as c06_
+  try:
+    sel_ = q.find_method(repo, repo.cls('lib.recoco.recoco', 'SelectHub'), '_select', 'C07'); ctx.analysed(sel_)
+    c06_.hub_pong_order(ctx, repo, sel_, q.cfg_of(sel_), sel_.module, 'D2')
+  except AnalysisError: raise
   g = q.cfg_of(trun)
-  pong = g.nodes_with_call(lambda c: call_name(c) == 'pongAll')
+  pong = g.nodes_with_call(lambda c: call_name(c) in ('pongAll', 'pong_all', 'pong') and isinstance(c.func, ast.Attribute))
   pops = g.nodes_with_call(lambda c: call_name(c) in ('popleft', 'pop') and isinstance(c.func, ast.Attribute) and q.alias_of(trun.node, c.func.value, 'self._calls'))
   ylds = [n for n in g.nodes if n.ast is not None and any(isinstance(x, ast.Yield) for x in walk_no_nested(n.ast) if True) and any(isinstance(x, ast.Call) and call_name(x) == 'Select' for x in ast.walk(n.ast))]
   ctx.floor('call-later consumer sites (wait, pong, pop)', len(pong) + len(pops) + len(ylds), 3)
@@ -140,6 +150,31 @@ def run (ctx):
            "pongAll dominates the drain and is not reachable from it without waiting again" if good else
            "pongAll() runs after (part of) the drain: a function queued between the last popleft and pongAll has its wake-up swallowed and sits in the queue until some unrelated later call-later - it is lost as far as the polling timeout is concerned",
            (mod, (after or pong)[0].ast), 'D2')
+    # how much is taken per wake-up: either the whole queue is drained (the pop sits in a loop that only an empty queue ends), or one
+    # function per wake-up - which is only complete if every hand-off leaves exactly one byte in the pipe: one byte read per wake-up
+    # and a ping() whose write can neither be skipped nor fail silently
+    def drains_all (d_):
+      for st_, h_, a_ in g.loop_nodes:
+        if d_ in g.loop_body_nodes(h_) and not any(y_ in g.loop_body_nodes(h_) for y_ in ylds):
+          return True
+      return False
+    all_ = all(drains_all(d_) for d_ in pops)
+    one_byte = all(call_name(c_) == 'pong' for p_ in pong for c_ in q.node_calls(p_) if call_name(c_) in ('pongAll', 'pong_all', 'pong'))
+    lossless = True; why_l = ''
+    if mp is not None:
+      for cd in [x for x in ast.walk(mp.node) if isinstance(x, ast.ClassDef)]:
+        pm = next((x for x in cd.body if isinstance(x, ast.FunctionDef) and x.name == 'ping'), None)
+        if pm is None: continue
+        pg_ = q.cfg_of(pm)
+        for w_ in pg_.nodes_with_call(lambda c: (call_name(c) == 'write' and norm(c.func.value) == 'os') or (call_name(c) in ('send', 'sendall') and norm(c.func.value).startswith('self.'))):
+          if pg_.handlers_for(w_): lossless = False; why_l = "%s.ping() swallows a failing write (`%s`)" % (cd.name, [norm(h_.ast.type) if h_.ast.type is not None else 'bare except' for h_ in pg_.handlers_for(w_)][0])
+        if any(call_name(c_) in ('set_blocking', 'setblocking') and any(isinstance(a_, ast.Constant) and a_.value in (False, 0) for a_ in c_.args) and ('_w' in norm(c_) or 'pair[1]' in norm(c_)) for c_ in ast.walk(cd) if isinstance(c_, ast.Call)):
+          lossless = False; why_l = why_l or "%s makes the write end non-blocking" % cd.name
+    good = all_ or (one_byte and lossless)
+    ctx.ob('R-AGREE', trun, "every function handed over is run: each wake-up drains the queue, or hand-offs and wake-up bytes correspond one to one", good,
+           "drain loop ends only on an empty queue" if all_ else "one byte read per function, ping() always writes" if good else
+           "a wake-up runs %s, but %s: more functions can be queued than wake-ups are delivered, and the surplus stays in the queue - handed-over functions run late or never"
+           % ("one queued function", why_l if one_byte else "the whole pipe is cleared (`%s`)" % pong[0].text(30)), (mod, pops[0].ast), 'D2')
     ctx.ob('R-ORDER', trun, "the task waits for a wake-up before each drain", all(g.dominates(y, d, exc=False) for y in ylds for d in pops), "Select on the pinger dominates the drain", trun, 'D2')
     for d in pops:
       c = [c for c in q.node_calls(d) if call_name(c) in ('popleft', 'pop')][0]
